@@ -110,6 +110,14 @@ CHECKS["C06"] = dict(
     note="The digit cells come from the library's own braille of the bare literal, so the check is about operands lost or split in context, not about the digit table. Two known findings (CMU menclose box, Swedish sum upper limit) are listed.",
 )
 
+CHECKS["C07"] = dict(
+    category="model_checking",
+    technique="TLA+ model of the indicator replacement step (Braille.tla) checked by TLC on the regex class / replacement table harvested from braille.rs and the indicator characters harvested from each code's rule files; suite expressions and a sweep over every key of each code's Unicode tables under six codes and highlight styles judged by TLC (Trace_Braille.tla)",
+    text="Design: every indicator character a cell code's files can emit is matched by the clean-up class and replaced by cells. Implementation: suite expressions and every character that is a key of the code's Unicode tables (plus characters in no table) in mi/mo/mn/mtext hosts with typeface variants, for Nemeth, UEB, CMU, Vietnam (cells) and LaTeX, ASCIIMath (text); TLC checks that every output character is a braille cell or an undefined character of the canonical MathML, that no cell carries dots 7-8 beyond the 8-dot cells of the code's own files, that highlight styles with id '' or an unknown id change nothing, that text codes are printable and marker-free, and that visible content never gives empty braille. The character sweep is complete in thorough and sampled in quick.",
+    design_ref="DESIGN.md section 5 C07",
+    note="Definedness is computed from harvested table keys (single characters and ranges). Three known findings (Nemeth menclose arrows, uncovered <none/> reaching the default rule, table row separator taken for a highlight) are listed.",
+)
+
 NOT_YET = {}
 
 
